@@ -46,14 +46,7 @@ AttrSize(uattrs, name) == LET i == LastIdx(uattrs, LAMBDA a : a.name = name) IN
                           IF i > 0 THEN Size(ParseInterval(uattrs[i].degree).iv) ELSE Size(EnglishInterval(name).iv)
 
 \* ---- chords: built-in table (flattened) then user entries
-\* display symbols as code points, from the TLA+ strings of Theory!ChordSymbols
-SymChars == [s \in ChordSymbols |->
-   CASE s = "" -> <<>> [] s = "m" -> <<109>> [] s = "dim" -> <<100,105,109>> [] s = "aug" -> <<97,117,103>> [] s = "7" -> <<55>>
-     [] s = "M7" -> <<77,55>> [] s = "maj7" -> <<109,97,106,55>> [] s = "m7" -> <<109,55>> [] s = "mM7" -> <<109,77,55>>
-     [] s = "m7b5" -> <<109,55,98,53>> [] s = "dim7" -> <<100,105,109,55>> [] s = "augM7" -> <<97,117,103,77,55>> [] s = "9" -> <<57>>
-     [] s = "m9" -> <<109,57>> [] s = "M9" -> <<77,57>> [] s = "maj9" -> <<109,97,106,57>> [] s = "mM9" -> <<109,77,57>>
-     [] s = "sus4" -> <<115,117,115,52>> [] s = "7sus4" -> <<55,115,117,115,52>> [] s = "6" -> <<54>> [] s = "m6" -> <<109,54>>
-     [] s = "add9" -> <<97,100,100,57>> [] s = "sus2" -> <<115,117,115,50>>]
+\* (SymChars: display symbols as code points -- in Theory.tla)
 BuiltinDisplay(key) == {s \in ChordSymbols : SymChars[s] = key}
 \* user entry addressed by key (name or display), the last one wins; 0 = none
 UserIdx(uchords, key) == LastIdx(uchords, LAMBDA c : c.name = key \/ c.display = key)
